@@ -167,7 +167,10 @@ def compare(beh, obs):
         if st:
             if st["outside"]:
                 diffs.append((i, "strace-outside", [], st["outside"]))
-            if len(st["w"]) == len(e["calls"]) and st["w"] != [cl["w"] for cl in e["calls"]]:
+            complete = st["systemctl"] == [cl["v"] for cl in o["calls"]] and len(st["w"]) == len(o["calls"])
+            if not complete:
+                pass            # the trace could not be aligned with the stand-in's log: snapshots only
+            elif len(st["w"]) == len(e["calls"]) and st["w"] != [cl["w"] for cl in e["calls"]]:
                 diffs.append((i, "strace-write-order", [cl["w"] for cl in e["calls"]], st["w"]))
             elif (st["mutations"] > 0) != e["wrote"]:
                 diffs.append((i, "strace-wrote", e["wrote"], st["mutations"] > 0))
@@ -181,7 +184,7 @@ def written_flags(o, pre_sys):
     (a successful write-open / unlink / rename of a system location precedes the call), else from the stand-in's
     snapshots (weaker: cannot see a rewrite with identical bytes)"""
     st = o.get("strace")
-    if st and len(st.get("w", [])) == len(o["calls"]):
+    if st and st.get("systemctl") == [cl["v"] for cl in o["calls"]] and len(st.get("w", [])) == len(o["calls"]):
         return list(st["w"]), st["mutations"] > 0
     w = [cl["s"] != pre_sys for cl in o["calls"]]
     return w, (o["sys"] != pre_sys or any(w))
@@ -462,7 +465,14 @@ def _run(c):
             short["cmds"], short["steps"] = b2["cmds"][:j], b2["steps"][:j]
             ok3, why3, obs3 = judge.decide(short, "divergence %s/%s" % key)
             if ok3:
-                raise util.ToolError("unreproduced rejection (%s) of %s from %s" % (why, short["cmds"], init_key(short)))
+                first = o2["steps"][j - 1]
+                util.write_json(os.path.join(util.BUILD, "c17_unreproduced.json"),
+                                {"why": why, "init": b2["init"], "cmds": b2["cmds"], "first_observation": slim(o2),
+                                 "second_observation": slim(obs3)})
+                raise util.ToolError("unreproduced rejection (%s) of %s from %s: first run exit=%s calls=%s out=%r; "
+                                     "details in .build/c17_unreproduced.json"
+                                     % (why, short["cmds"], {x: b2["init"][x]["exe"] for x in ("sys", "bak", "pkg")},
+                                        first["exit"], [cl["v"] for cl in first["calls"]], first.get("out_tail", "")[-300:]))
             sig = report(c, short, obs3, why3, compare(short, obs3) or d2, "replay diverges from Setup.tla and breaks C17")
             reported.add(json.dumps(sig, sort_keys=True))
             rejected += 1
@@ -519,7 +529,7 @@ def _run(c):
                     "pkg": {l: "p" for l in LOCS}, "rest": "r0", "svc": "running"}
             o = replay_many(dbg, [{"id": "dbg", "init": init, "cmds": [{"c": "restoreT", "argv": ["restore"]}]}], c.seed, 1, tag="d")
             s = o["dbg"]["steps"][0]
-            c.extra["debug_profile_restore"] = {"argv": s["argv"], "exit": s["exit"], "panic": s.get("panic", ""), "sys": s["sys"],
+            c.extra["debug_profile_restore"] = {"argv": s["argv"], "exit": s["exit"], "panic": re.sub(r"/\S*/registry/src/[^/]+/", "", s.get("panic", "")), "sys": s["sys"],
                                                 "note": "debug profile does not ship; recorded, not judged"}
         except util.ToolError as ex:
             c.extra["debug_profile_restore"] = {"error": str(ex)[:300]}
